@@ -16,6 +16,8 @@
 //!        `(ok cp..) | (err) | (other)` (other: holes / more than one text segment)
 //!   rawsingle `(term|pat cp..)` same for `"<raw>"`.
 //!   pretty `(pretty (w n..) <doc>)`  real `pretty::print` at each width: `(printed (cp..) ..)`
+//!   frag   `(fragfmt (c t+))` | `(fragparse cp..)`  the data-literal fragment of FormatFrag.v: real format_program on a
+//!        fragment AST + real parser on its output: `(frag (out cp..) (back (ok (c ..))|(err)|(other)))`; real parser on a text
 //!   comments `"<source>"`      the harness's own hole-aware comment scanner: `(comments "c1" ..)`
 use qvh::sexp::{self, Sexp, quote};
 use qvh::{guarded, hex};
@@ -1424,7 +1426,138 @@ fn pretty_case(case: &Sexp) -> String {
             Ok(s) => outs.push(format!("({})", string_to_cps(&s))),
         }
     }
-    format!("(printed {})", outs.join(" "))
+    // pretty::flatten and pretty::flat_width (at the same numbers used as `max`)
+    let d = doc.clone();
+    let flat = match guarded(move || pretty::flatten(&d)) {
+        Err(loc) => format!("(panic {})", quote(&loc)),
+        Ok(s) => format!("({})", string_to_cps(&s)),
+    };
+    let fw: Vec<String> = case.args()[0]
+        .args()
+        .iter()
+        .map(|w| pretty::flat_width(&doc, w.usize()).map_or("-".to_string(), |n| n.to_string()))
+        .collect();
+    format!("(printed {}) (flat {}) (fw {})", outs.join(" "), flat, fw.join(" "))
+}
+
+
+// ------------------------------------------------------------------------------------------
+// the "data literal" fragment of FormatFrag.v: (c t+); t = (i N) | (id cp..) | (s cp..) | (t - f*) | (t (n cp..) f*);
+// f = (f - t+) | (f (l cp..) t+)
+// ------------------------------------------------------------------------------------------
+fn frag_term_of(s: &Sexp) -> Term {
+    match s.head() {
+        "i" => Term::Literal(Literal::Integer(s.args()[0].atom().parse().unwrap())),
+        "id" => Term::Access(Access {
+            source: Some(AccessSource::Identifier(cps_to_string(s.args()))),
+            accessors: vec![],
+            accessor_spans: vec![],
+            base_span: Spanned::default(),
+            span: Spanned::default(),
+        }),
+        "s" => {
+            let text = cps_to_string(s.args());
+            Term::String(
+                StringStyle::Single,
+                if text.is_empty() { vec![] } else { vec![StrSegment::Text(text.into_bytes())] },
+            )
+        }
+        "t" => {
+            let name = match &s.args()[0] {
+                Sexp::List(l) => TupleName::Named(cps_to_string(&l[1..])),
+                _ => TupleName::Anonymous,
+            };
+            let fields = s.args()[1..]
+                .iter()
+                .map(|f| TupleField {
+                    name: match &f.args()[0] {
+                        Sexp::List(l) => Some(cps_to_string(&l[1..])),
+                        _ => None,
+                    },
+                    name_span: Spanned::default(),
+                    span: Spanned::default(),
+                    value: FieldValue::Chain(mk_chain(f.args()[1..].iter().map(frag_term_of).collect())),
+                })
+                .collect();
+            Term::Tuple(Tuple { name, fields, span: Spanned::default() })
+        }
+        other => panic!("bad fragment term {}", other),
+    }
+}
+fn frag_of_term(t: &Term) -> Option<String> {
+    Some(match t {
+        Term::Literal(Literal::Integer(n)) => format!("(i {})", n),
+        Term::Access(a) if a.accessors.is_empty() => match &a.source {
+            Some(AccessSource::Identifier(n)) => format!("(id {})", string_to_cps(n)),
+            _ => return None,
+        },
+        Term::String(StringStyle::Single, segs) => match segs.as_slice() {
+            [] => "(s )".to_string(),
+            [StrSegment::Text(b)] => format!("(s {})", string_to_cps(std::str::from_utf8(b).ok()?)),
+            _ => return None,
+        },
+        Term::Tuple(t) => {
+            let name = match &t.name {
+                TupleName::Anonymous => "-".to_string(),
+                TupleName::Named(n) => format!("(n {})", string_to_cps(n)),
+                TupleName::Inherit => return None,
+            };
+            let mut out = format!("(t {}", name);
+            for f in &t.fields {
+                let FieldValue::Chain(c) = &f.value else { return None };
+                if c.match_pattern.is_some() {
+                    return None;
+                }
+                out.push_str(&format!(
+                    " (f {}",
+                    f.name.as_ref().map_or("-".to_string(), |n| format!("(l {})", string_to_cps(n)))
+                ));
+                for t in &c.terms {
+                    out.push(' ');
+                    out.push_str(&frag_of_term(t)?);
+                }
+                out.push(')');
+            }
+            out.push(')');
+            out
+        }
+        _ => return None,
+    })
+}
+fn frag_of_program(p: &Program) -> Option<String> {
+    let [Statement::Expression(seq)] = p.statements.as_slice() else { return None };
+    let [c] = seq.chains.as_slice() else { return None };
+    if c.match_pattern.is_some() {
+        return None;
+    }
+    let terms: Option<Vec<String>> = c.terms.iter().map(frag_of_term).collect();
+    Some(format!("(c {})", terms?.join(" ")))
+}
+fn frag_back(src: &str) -> String {
+    let s0 = src.to_string();
+    match guarded(move || parse(&s0)) {
+        Err(loc) => format!("(panic {})", quote(&loc)),
+        Ok(Err(_)) => "(err)".to_string(),
+        Ok(Ok(p)) => frag_of_program(&p).map_or("(other)".to_string(), |c| format!("(ok {})", c)),
+    }
+}
+/// `(fragfmt (c t+))`: real format_program of the fragment AST, and the real parser on its output.
+/// `(fragparse cp..)`: the real parser on a text.
+fn frag_case(case: &Sexp) -> String {
+    match case.head() {
+        "fragfmt" => {
+            let terms: Vec<Term> = case.args()[0].args().iter().map(frag_term_of).collect();
+            let program = Program {
+                statements: vec![Statement::Expression(Sequence { chains: vec![mk_chain(terms)] })],
+            };
+            let out = match guarded(move || format_program(&program, "")) {
+                Err(loc) => return format!("(panic {} format)", quote(&loc)),
+                Ok(o) => o,
+            };
+            format!("(frag (out {}) (back {}))", string_to_cps(&out), frag_back(&out))
+        }
+        _ => format!("(frag (back {}))", frag_back(&cps_to_string(case.args()))),
+    }
 }
 
 fn main() {
@@ -1444,6 +1577,7 @@ fn main() {
             "rawmulti" => raw_string(&items[0], "\"\"\""),
             "rawsingle" => raw_string(&items[0], "\""),
             "pretty" => pretty_case(&items[0]),
+            "frag" => frag_case(&items[0]),
             "comments" => format!(
                 "(comments {})",
                 scan_comments(items[0].atom())
